@@ -62,13 +62,22 @@ type Task struct {
 
 // Lookup is one reverse eight-character lookup (C10).
 type Lookup struct {
-	Clock  *Clock `json:"clock,omitempty"` // set before the call if non-nil (fault step)
-	Fault  string `json:"fault,omitempty"` // clock_jump | zone_change | ""
-	Moment [6]int `json:"moment"`          // y,m,d,h,mi,s of M
-	Sect   int    `json:"sect"`
-	Base   int    `json:"base"` // 0 = use the API without base year (default 1900)
-	API    int    `json:"api"`  // 0 BySectAndBaseYear, 1 BySect, 2 plain (sect 2)
-	Why    string `json:"why,omitempty"`
+	Clock  *Clock  `json:"clock,omitempty"`  // set before the call if non-nil (fault step)
+	Fault  string  `json:"fault,omitempty"`  // clock_jump | zone_change | ""
+	Moment [6]int  `json:"moment"`           // y,m,d,h,mi,s of M (when Jie and Repeat are nil)
+	Jie    *JieRef `json:"jie,omitempty"`    // M = instant of a Jie term + offset, resolved by the worker from the library's term table
+	Repeat *int    `json:"repeat,omitempty"` // M = the moment of an earlier lookup of this run
+	Sect   int     `json:"sect"`
+	Base   int     `json:"base"` // 0 = use the API without base year (default 1900)
+	API    int     `json:"api"`  // 0 BySectAndBaseYear, 1 BySect, 2 plain (sect 2)
+	Why    string  `json:"why,omitempty"`
+}
+
+// JieRef names a moment relative to a Jie term instant.
+type JieRef struct {
+	Year int `json:"year"`  // civil year in which the term falls
+	Idx  int `json:"idx"`   // 0 Xiaohan(Jan) 1 Lichun 2 Jingzhe ... 11 Daxue(Dec)
+	OffS int `json:"off_s"` // seconds added to the instant (negative = before)
 }
 
 // HStep is one step of a holiday history (C14).
